@@ -742,7 +742,7 @@ func (c *compiler) compile(tok *token) []instruction {
 			res = append(res, ins)
 		} else {
 			fnc := c.compile(tok.Tokens[callName])
-			if tok.Tokens[callName].Symbol == "(name)" && fnc[0].Code == codeGlobalGet { // a local's slot number is not a global index
+			if _, imported := c.importedGlobal(tok.Tokens[callName]); (tok.Tokens[callName].Symbol == "(name)" || (imported && len(fnc) == 1)) && fnc[0].Code == codeGlobalGet { // a local's slot number is not a global index; temp.Celsius(x) converts as Celsius(x) does
 				typ := c.Globals.Read(int(fnc[0].A))
 				if typ.t == typeType {
 					res = append(res, instruction{Code: codeConvert, A: reg(typ.Int())})
